@@ -243,11 +243,12 @@ def number_spellings(val, coef_pos):
     r = repr(float(val))
     if f.denominator == 1:
         n = int(f)
-        out = ["%d" % n, "%d.0" % n, "%d." % n, "%de0" % n, "%d.00" % n, "(%d*2/2)" % n, "(%d/1)" % n, "(2*%d/2)" % n, "(%d*1*1)" % n]
+        out = ["%d" % n, "%d.0" % n, "%d." % n, "%de0" % n, "%d.00" % n, "(%d*2/2)" % n, "(%d/1)" % n, "(2*%d/2)" % n, "(%d*1*1)" % n,
+               "%de+0" % n, "%dE0" % n, "%d.0e+00" % n, "%dE-0" % n]
         if not coef_pos:
             out += ["(%d+1)" % (n - 1), "(%d-1)" % (n + 1), "(1+%d-1+0)" % n, "(%d)" % n] if n >= 1 else []
         if n % 10 == 0 and n > 0:
-            out.append("%de1" % (n // 10))
+            out += ["%de1" % (n // 10), "%de+1" % (n // 10), "%dE+01" % (n // 10), "%d.e+1" % (n // 10)]
         return out
     out = [r, r + "0"]
     if r.startswith("0."):
@@ -255,7 +256,9 @@ def number_spellings(val, coef_pos):
     if f.denominator in (2, 4, 8):
         out += ["(%d/%d)" % (f.numerator, f.denominator), "(%d/%d)" % (f.numerator * 2, f.denominator * 2), "(%s*2/2)" % r, "(%d/2/%d)" % (f.numerator, f.denominator // 2)]
         if (f * 10).denominator == 1:
-            out.append("%de-1" % int(f * 10))
+            out += ["%de-1" % int(f * 10), "%dE-1" % int(f * 10), "%d.0e-01" % int(f * 10)]
+        if (f * 100).denominator == 1:
+            out.append("0.%02de+1" % int(f * 10) if f < 10 and (f * 10).denominator == 1 and f * 10 < 100 else r)
     elif not coef_pos:
         out.append("(%s)" % r)
     return out
